@@ -52,9 +52,9 @@ def one_case(ctx, g, rng, length):
     impl.append([0])
     blocks = []
     for _ in range(rng.choice([1, 2, 3])):
-        ecap = min(esz, 64)          # block extents stay small also when the DECLARED size is 2^63 or more (views are taken of stored bytes)
-        off = rng.choice([0, 0, 1, 2, max(0, n - 1), n, n + 1, ecap, max(0, ecap - 1)])
-        bsz = rng.choice([0, 1, 2, 4, n, ecap + 1])
+        ecap = min(esz, 64)          # most block extents stay near the stored bytes; some blocks reach to 2^63 and 2^64-1 (views are slices of the stored bytes)
+        off = rng.choice([0, 0, 1, 2, max(0, n - 1), n, n + 1, ecap, max(0, ecap - 1), 0, 1, 1 << 63, (1 << 64) - 1])
+        bsz = rng.choice([0, 1, 2, 4, n, ecap + 1, 2, 1 << 63, (1 << 64) - 1])
         cls = g.CodeBlock if rng.random() < 0.5 else g.DataBlock
         blocks.append(cls(offset=off, size=bsz, byte_interval=bi))
     # what else an interval carries stays where it is when the size shrinks below it (blocks above; symbolic expressions at offsets
